@@ -223,6 +223,7 @@ FOCUS_SNIPPETS = [
     'sub vcl_recv {\n  switch (req.url) {\n  case "a":\n    esi;\n    break;\n  case ~ "b":\n    fallthrough;\n  default:\n    break;\n  }\n}\n',
     'sub vcl_recv {\n  set var.p = 10%;\n  set req.http.X = "a" + 5% + "b";\n  log 1% "x";\n  if (var.p == 10%) {\n    esi;\n  }\n}\n',
     'sub vcl_recv {\n  switch (req.url) {\n  case "a" "b":\n    break;\n  case "c" + "d" req.http.E:\n    break;\n  default:\n    break;\n  }\n}\n',
+    'sub vcl_recv {\n  if (/* a */ req.http.A /* b */ && /* c */ req.http.B /* d */ || /* e */ req.http.D /* f */ && (req.http.E /* g */ || req.http.F) /* h */) {\n    esi;\n  }\n  if\n\n  /* i */ (req.http.A) {\n    esi;\n  }\n}\n',
     'sub b {\n}\nsub a {\n}\nsub vcl_log {\n}\nsub vcl_recv {\n}\nacl z {\n}\nacl y {\n}\nbackend q {\n}\ntable t {\n}\nimport x;\ninclude "i";\npenaltybox p {\n}\nratecounter r {\n}\ndirector d random {\n}\n',
 ]
 
@@ -554,22 +555,6 @@ def documented_comments(toks):
     return [t[2] for t in toks if t[0] == "C"]
 
 
-def case_tests_collide(toks):
-    """two `case <test> :` of the source spell the same test once the "+" of concatenations is ignored (known finding
-    switch-case-concat-spelling: the parser's duplicate test compares spellings, the formatter unifies them)"""
-    sig = [t for t in toks if t[0] == "T"]
-    tests, i = [], 0
-    while i < len(sig):
-        if sig[i][1] == "CASE":
-            j = i + 1
-            while j < len(sig) and sig[j][1] != "COLON":
-                j += 1
-            tests.append(tuple((t[1], t[2]) for t in sig[i + 1:j] if t[1] != "PLUS"))
-            i = j
-        i += 1
-    return len(tests) != len(set(tests))
-
-
 def token_runs(sig):
     """sorted runs of (type, literal) cut behind every ; , { } : invariant under a permutation of properties"""
     runs, cur = [], []
@@ -754,9 +739,7 @@ class Pipeline:
             else:
                 self.stats["det_same"] += 1
             if not r["re"]:
-                self.add(i, "reparse", "formatted text does not parse: " + r["re_msg"][:160],
-                         {"facts": {"construct": "switch-case-concat-spelling"}}
-                         if "Duplicate case label" in r["re_msg"] and case_tests_collide(parse_raw(self.raw_in[id(it)])) else None)
+                self.add(i, "reparse", "formatted text does not parse: " + r["re_msg"][:160])
             elif not r["ast"]:
                 self.add(i, "ast", "tree of the formatted text differs: " + sexp_diff(r["ast_exp"], r["ast_got"]))
             else:
